@@ -613,7 +613,7 @@ func reifyArray(
 	to reflect.Value, tTo reflect.Type,
 	val value,
 ) (reflect.Value, Error) {
-	arr, err := castArr(opts.opts, val)
+	arr, single, err := castArr(opts.opts, val)
 	if err != nil {
 		return reflect.Value{}, err
 	}
@@ -622,7 +622,7 @@ func reifyArray(
 		ctx := val.Context()
 		return reflect.Value{}, raiseArraySize(ctx, val.meta(), len(arr), tTo.Len())
 	}
-	return reifyDoArray(opts, to, tTo.Elem(), 0, val, arr)
+	return reifyDoArray(opts, to, tTo.Elem(), 0, val, arr, single)
 }
 
 func reifySlice(
@@ -639,7 +639,7 @@ func reifySliceMerge(
 	tTo reflect.Type,
 	val value,
 ) (reflect.Value, Error) {
-	arr, err := castArr(opts.opts, val)
+	arr, single, err := castArr(opts.opts, val)
 	if err != nil {
 		return reflect.Value{}, err
 	}
@@ -678,7 +678,7 @@ func reifySliceMerge(
 		// when replacing, the new elements must not be merged with the old ones
 		reflect.Copy(tmp.Slice(cpyStart, tmp.Len()), old)
 	}
-	return reifyDoArray(opts, tmp, tTo.Elem(), start, val, arr)
+	return reifyDoArray(opts, tmp, tTo.Elem(), start, val, arr, single)
 }
 
 func reifyDoArray(
@@ -687,6 +687,7 @@ func reifyDoArray(
 	start int,
 	val value,
 	arr []value,
+	single bool,
 ) (reflect.Value, Error) {
 	aLen := len(arr)
 	tLen := to.Len()
@@ -696,7 +697,7 @@ func reifyDoArray(
 			// map or the fields of a struct (unless the value itself stands
 			// for a list of one element: it has been looked at in this scope)
 			closeScope := func() {}
-			if !(aLen == 1 && arr[0] == val) {
+			if !single {
 				closeScope = opts.opts.scopeActiveFields()
 			}
 			v, err := reifyMergeValue(opts, to.Index(idx), arr[idx-start])
@@ -728,9 +729,13 @@ func reifyDoArray(
 	return to, nil
 }
 
-func castArr(opts *options, v value) ([]value, Error) {
+// castArr returns the elements of a list value. A value that is no list
+// stands for a list with itself as the only element; single reports that
+// case (the value has been looked at already, it is not an element found in a
+// list).
+func castArr(opts *options, v value) (arr []value, single bool, err Error) {
 	if sub, ok := v.(cfgSub); ok {
-		return sub.c.fields.array(), nil
+		return sub.c.fields.array(), false, nil
 	}
 	if ref, ok := v.(*cfgDynamic); ok {
 		unrefed, err := ref.getValue(opts)
@@ -738,25 +743,25 @@ func castArr(opts *options, v value) ([]value, Error) {
 			// the error is about the setting itself: report its own path and
 			// source (the enclosing configuration may have been created
 			// without metadata)
-			return nil, raisePathErr(ErrMissing, ref.meta(), err.Error(), ref.ctx.path("."))
+			return nil, false, raisePathErr(ErrMissing, ref.meta(), err.Error(), ref.ctx.path("."))
 		}
 
 		if sub, ok := unrefed.(cfgSub); ok {
-			return sub.c.fields.array(), nil
+			return sub.c.fields.array(), false, nil
 		}
 	}
 
-	l, err := v.Len(opts)
-	if err != nil {
+	l, lenErr := v.Len(opts)
+	if lenErr != nil {
 		ctx := v.Context()
-		return nil, raisePathErr(err, v.meta(), "", ctx.path("."))
+		return nil, false, raisePathErr(lenErr, v.meta(), "", ctx.path("."))
 	}
 
 	if l == 0 {
-		return nil, nil
+		return nil, false, nil
 	}
 
-	return []value{v}, nil
+	return []value{v}, true, nil
 }
 
 func reifyPrimitive(
